@@ -373,6 +373,28 @@ class ABMSimulator(Simulator):
                 self._schedule_event(event)
                 break
 
+    def run_next_event(self):
+        """Execute the next event, keeping model.step scheduled for every tick.
+
+        Raises:
+            Exception if simulator.setup() has not yet been called
+
+        """
+        if self.model is None:
+            raise Exception(
+                "simulator has not been setup, call simulator.setup(model) first"
+            )
+
+        try:
+            event = self.event_list.pop_event()
+        except IndexError:  # event list is empty
+            return
+
+        self.time = event.time
+        if event.fn() == self.model.step:
+            self.schedule_event_next_tick(self.model.step, priority=Priority.HIGH)
+        event.execute()
+
 
 class DEVSimulator(Simulator):
     """A simulator where the unit of time is a float.
